@@ -258,6 +258,85 @@ def rule_F4_time(ctx, mod):
     ctx.need(n >= 2, 'stores of _time in __init__ and the setter not found')
 
 
+MUT = {'update', 'append', 'extend', 'insert', 'pop', 'remove', 'clear',
+       'sort', 'setdefault', 'popitem', 'fill', 'resize'}
+
+
+def rule_F6_own(ctx, mod):
+    """Settings handed to a Fourier instance (time vector, ftarg dictionary,
+    input frequencies) stay the caller's objects; an instance keeps them by
+    reference or replaces them, but never writes INTO them: a dictionary
+    shared by several instances would carry the checked, instance-specific
+    entries of the last one to all others, whose cached frequencies then
+    belong to other transform arguments."""
+    cls = mod.cls('Fourier')
+    meths = [n for n in cls.body if isinstance(n, ast.FunctionDef)]
+    # attributes that may hold a caller's object: bound to a parameter (also
+    # under a test / through kwargs.pop)
+    shared = set()
+    for m in meths:
+        ps = set(au.all_params(m)) - {'self'}
+        for st in ast.walk(m):
+            if isinstance(st, ast.Assign) and len(st.targets) == 1 and \
+                    isinstance(st.targets[0], ast.Attribute) and \
+                    ast.unparse(st.targets[0].value) == 'self':
+                v = st.value
+                names = {x.id for x in ast.walk(v) if isinstance(x, ast.Name)}
+                direct = isinstance(v, ast.Name) and v.id in ps
+                popped = isinstance(v, ast.Call) and ast.unparse(
+                    v.func) == 'kwargs.pop'
+                if direct or popped or (isinstance(v, ast.IfExp) and
+                                        names & ps):
+                    shared.add(st.targets[0].attr)
+    # (after canonicalisation `x = a if c else p` is an if / else statement)
+    ctx.anchor({'_ftarg', '_time'} <= shared or {'_ftarg'} <= shared,
+               f'attributes bound to caller objects in Fourier ({shared})')
+    props = {}
+    for m in meths:
+        if 'property' in au.decorator_names(m):
+            r = [n for n in ast.walk(m) if isinstance(n, ast.Return)]
+            if len(r) == 1 and isinstance(r[0].value, ast.Attribute) and \
+                    ast.unparse(r[0].value.value) == 'self':
+                props[m.name] = r[0].value.attr
+    names = shared | {p for p, a in props.items() if a in shared}
+    n = 0
+    for m in meths:
+        for st in ast.walk(m):
+            bad = None
+            if isinstance(st, ast.Call) and isinstance(
+                    st.func, ast.Attribute) and st.func.attr in MUT and \
+                    isinstance(st.func.value, ast.Attribute) and ast.unparse(
+                        st.func.value.value) == 'self' and \
+                    st.func.value.attr in names:
+                bad = st
+            tgs = st.targets if isinstance(st, ast.Assign) else (
+                [st.target] if isinstance(st, ast.AugAssign) else (
+                    st.targets if isinstance(st, ast.Delete) else []))
+            for t in tgs:
+                if isinstance(t, ast.Subscript) and isinstance(
+                        t.value, ast.Attribute) and ast.unparse(
+                            t.value.value) == 'self' and \
+                        t.value.attr in names:
+                    bad = st
+                if isinstance(st, ast.AugAssign) and isinstance(
+                        t, ast.Attribute) and ast.unparse(t.value) == \
+                        'self' and t.attr in names:
+                    bad = st
+            if bad is not None:
+                n += 1
+                ctx.check('C20.F5.coherent', f'Fourier.{m.name} '
+                          f'`{ast.unparse(bad)[:50]}`', False,
+                          'writes into an object that may be the caller\'s '
+                          '(given to __init__ / a setter and kept by '
+                          'reference): instances created from the same '
+                          'dictionary / array share it, and the checked '
+                          'transform arguments of one instance replace '
+                          'those of the others', ctx.where(mod, bad))
+    ctx.ok('C20.F5.coherent', 'Fourier does not write into objects given by '
+           f'the caller ({n} in-place writes found)',
+           sample={'attributes': sorted(names), 'writes': n})
+
+
 def run(ctx):
     ctx.explanation = (
         'The three frequency masks are lifted as predicates of one frequency '
@@ -271,6 +350,7 @@ def run(ctx):
                        'empymod.model.tem is the reference transform']
     mod = ctx.repo.mod(TIME)
     rule_F5(ctx, mod)
+    rule_F6_own(ctx, mod)
     rule_F4_time(ctx, mod)
     ext, a1, n1 = mask_table(mod, 'ifreq_extrapolate')
     itp, a2, n2 = mask_table(mod, 'ifreq_interpolate')
@@ -468,7 +548,24 @@ def run(ctx):
     p2 = au.params(f2)
     calls = [c for c in au.calls(f2) if ast.unparse(c.func) ==
              'empymod.model.tem']
-    ctx.anchor(len(calls) == 1, 'empymod.model.tem call in freq2time()')
+    # (helpers of the class called from freq2time are looked into as well)
+    if not calls:
+        for c_ in au.calls(f2):
+            if isinstance(c_.func, ast.Attribute) and isinstance(
+                    c_.func.value, ast.Name) and c_.func.value.id == 'self':
+                h_ = mod.method('Fourier', c_.func.attr, required=False)
+                if h_ is not None:
+                    calls += [x for x in au.calls(h_) if ast.unparse(
+                        x.func) == 'empymod.model.tem']
+    ctx.check('C20.F4.handover', 'freq2time: the reference transform does '
+              'the transform', len(calls) == 1,
+              'freq2time() does not hand the filled spectrum to the '
+              'reference transform empymod.model.tem (it is re-implemented '
+              'or by-passed): equality with the reference transform for '
+              'every signal / ft / ftarg is not given by construction any '
+              'more', ctx.where(mod, f2))
+    if len(calls) != 1:
+        return
     c = calls[0]
     kws = {k.arg: ast.unparse(k.value) for k in c.keywords}
     want = {'freq': 'self.freq_required', 'time': 'self.time',
